@@ -331,6 +331,12 @@ class StmtMixin:
         if c.op != "false":
             a = st if c.op == "true" else st.fork()
             a.assume(c)
+            tt = s.test
+            if (isinstance(tt, ast.Compare) and len(tt.ops) == 1 and isinstance(tt.ops[0], ast.IsNot) and isinstance(tt.left, ast.Name)
+                    and isinstance(tt.comparators[0], ast.Constant) and tt.comparators[0].value is None):
+                v = a.env.get(tt.left.id)
+                if isinstance(v, SV) and v.pt.kind == "opt":
+                    a.env[tt.left.id] = self.ops.opt_the(v)  # `if x is not None:` narrows Optional[T] to T in the branch
             out += self.exec_block(s.body, a)
         if c.op != "true":
             b = st if c.op == "false" else st.fork()
